@@ -9,7 +9,8 @@ modes
                                           OWN evaluators (nat_eval / int_eval / real_eval applied across types), near-equal rationals,
                                           decimal sums that force the float path of const_inequality, polynomial identities with free
                                           variables (real_norm: t = the code's own normal form of t, textbook identities, perturbations),
-                                          equivalences of comparisons (real_eq_comparison), huge constants
+                                          real powers with compound natural-number exponents (nested truncated subtraction, closed
+                                          and with free nat variables), equivalences of comparisons (real_eq_comparison), huge constants
 Events: {tid, key, src, goal, acc: [{m, h: [hyps], c: conclusion}] (accepted), rej: [m, ...] (refused with one of the checker's own
          exceptions), raised: [[m, exception class], ...] (foreign exception)}
 Terms are projected to the applied form of spec/C05_HolArith.tla by reading raw fields only (no Term.__eq__, is_number,
@@ -491,6 +492,66 @@ def fam_poly(log, rng, n):
             log.goal("poly", rel("equals", T, b2("times", T, t, u), b2("times", T, nf, u)), only=only)
 
 
+def fam_exponent(log, rng, n):
+    """real powers whose NATURAL-NUMBER exponent is a compound nat expression with (nested, underflowing) truncated subtraction,
+    closed and with free nat variables.  Right-hand sides: the code's own polynomial normal form, the power with the exponent as
+    computed by the code's nat evaluator and by its int evaluator (i.e. untruncated), 1 and the base.  Judged by TLC on the grid,
+    the exponent with the arithmetic of natural numbers."""
+    T = "real"
+    x, y = Var("x", RealType), Var("y", RealType)
+    m, k = Var("m", NatType), Var("n", NatType)
+    nm = lambda v: num("nat", v)                               # noqa: E731
+    NM = lambda a, b: b2("minus", "nat", a, b)                 # noqa: E731
+    NP = lambda a, b: b2("plus", "nat", a, b)                  # noqa: E731
+    pw = lambda a, e: C("power", T, "nat", T)(a, e)            # noqa: E731
+    X = lambda a, b: b2("times", T, a, b)                      # noqa: E731
+    only = ("real_norm", "real_eval", "real_const_eq", "const_inequality", "real_const_ineq", "real_compare")
+    bases = [x, b2("plus", T, x, num(T, 1)), num(T, 2), num(T, -2), X(x, y)]
+
+    def pose(base, e):
+        t = pw(base, e)
+        rhs = [num(T, 1), base]
+        try:
+            rhs.append(real.from_poly(real.convert_to_poly(t)))          # the code's OWN normal form
+        except Exception:
+            pass
+        for ev in (nat.nat_eval, integer.int_eval):                      # the exponent as the code's evaluators see it
+            try:
+                v = ev(e)
+            except Exception:
+                continue
+            if isinstance(v, int) and 0 <= v <= 12:
+                rhs.append(pw(base, nm(v)))
+        for r in rhs:
+            log.goal("exponent", rel("equals", T, t, r), only=only)
+        if len(rhs) > 2:
+            log.goal("exponent", rel("equals", T, X(t, y), X(y, rhs[-1])), only=only)
+
+    # deterministic core: b - (c - d) with c < d, and shapes with a free variable whose untruncated value differs
+    exps = [NM(nm(b), NM(nm(c), nm(d))) for b in (0, 2, 3, 5) for c, d in ((2, 3), (1, 2), (0, 3))]
+    exps += [NP(NM(k, NP(k, nm(1))), nm(1)), NM(NP(k, nm(2)), NM(k, NP(k, nm(1)))), NM(nm(5), NM(k, NP(k, nm(1)))),
+             NM(NP(k, nm(3)), NM(nm(2), nm(3))), NP(NM(m, k), k), NM(NP(m, k), NM(k, NP(k, m))), NM(nm(2), nm(1)),
+             NM(NM(nm(4), nm(2)), nm(2)), NM(nm(2), nm(3)), NP(NM(nm(2), nm(3)), nm(2)), C("Suc", "nat", "nat")(NM(nm(1), nm(2)))]
+    for i, e in enumerate(exps):
+        pose(bases[i % 3], e)
+        if i % 4 == 0:
+            pose(bases[3 + (i // 4) % 2], e)
+
+    def exp_term(d):
+        r = rng.random()
+        if d <= 0 or r < 0.2:
+            return rng.choice([k, k, m]) if rng.random() < 0.35 else nm(rng.choice([0, 1, 1, 2, 2, 3, 4, 5]))
+        if r < 0.65:
+            return NM(exp_term(d - 1), exp_term(d - 1))
+        if r < 0.9:
+            return NP(exp_term(d - 1), exp_term(d - 1))
+        if r < 0.96:
+            return C("Suc", "nat", "nat")(exp_term(d - 1))
+        return b2("times", "nat", exp_term(d - 1), exp_term(d - 1))
+    for _ in range(n):
+        pose(rng.choice(bases[:4]), exp_term(rng.choice([2, 2, 3])))
+
+
 def fam_eqcmp(log, rng, n):
     """real_eq_comparison: equivalences between comparisons"""
     T = "real"
@@ -518,6 +579,7 @@ def mode_rand(out_path, n, seed):
     fam_floaty(log, random.Random(seed * 31 + 2), max(30, n // 4))
     fam_big(log, random.Random(seed * 31 + 3), max(40, n // 20))
     fam_poly(log, random.Random(seed * 31 + 4), max(40, n // 3))
+    fam_exponent(log, random.Random(seed * 31 + 6), max(25, n // 6))
     fam_eqcmp(log, random.Random(seed * 31 + 5), max(40, n // 20))
     log.close()
     print(json.dumps({"goals": log.tid, "macros": log.macros}))
